@@ -333,25 +333,25 @@ class Session:
             return run()
         if R.depth:
             return run()
+        args = kids = None
+        self.observing += 1
+        try:
+            args = op_args(R)
+            if args is not None:
+                R.first_call()
+                R.catch_up()
+                if kind == 'Clear':
+                    m = R.env.maps[args[0]]
+                    kids = list(m.maps.values()) + list(m.handles.values())
+        except Exception as ex:     # noqa
+            R.bad('recorder error: %r' % (ex,))
+            args = None
+        finally:
+            self.observing -= 1
+        if args is None:
+            return run()        # not a call on the modelled objects: whatever it does inside is recorded on its own
         R.depth += 1
         try:
-            args = kids = None
-            self.observing += 1
-            try:
-                args = op_args(R)
-                if args is not None:
-                    R.first_call()
-                    R.catch_up()
-                    if kind == 'Clear':
-                        m = R.env.maps[args[0]]
-                        kids = list(m.maps.values()) + list(m.handles.values())
-            except Exception as ex:     # noqa
-                R.bad('recorder error: %r' % (ex,))
-                args = None
-            finally:
-                self.observing -= 1
-            if args is None:
-                return run()
             R.env.loaded, R.env.seen = [], []
             v = ex = None
             try:
